@@ -392,7 +392,44 @@ def c11_aux():
     with open(path, "w") as f:
         for e in o["entries"]:
             f.write("%d %d %s\n" % (kinds[e["kind"]], 1 if e["accepted"] else 0, e["name"]))
+    # properties of strings: the candidate sequences with V8/ICU's verdict, for the runtime sweep (`^\p{P}$` under v)
+    sp = os.path.join(BUILD, "tmp", "c11_strings.txt")
+    so = json.load(open(os.path.join(ROOT, "oracle", "strings17.json")))
+    with open(sp, "w") as f:
+        for prop, e in so["properties"].items():
+            for c, v in zip(e["candidates"], e["verdicts"]):
+                f.write("%s %s %s\n" % (prop, v, c.replace(" ", ".")))
     return path, o
+
+
+def c11_strings_compare():
+    """Properties of strings: the seven sequence tables regenerated from the source (translator) against V8/ICU 78.2's
+    verdict on the committed candidate universe (members, prefixes, suffixes, U+FE0F removed/appended, all 676
+    regional-indicator pairs, keycap bases): membership must agree on every candidate."""
+    sys.path.insert(0, os.path.join(ROOT, "tools"))
+    import rs2lean as r
+    ut = r.strip_comments(open(os.path.join(REPO, "src", "unicodetables.rs")).read())
+    tabs = r.parse_string_tables(ut)
+    disp = r.parse_string_dispatch(ut, tabs)
+    names = dict(r.parse_from_str(ut, "unicode_string_property_from_str"))
+    so = json.load(open(os.path.join(ROOT, "oracle", "strings17.json")))
+    viol, n = [], 0
+    for prop, e in so["properties"].items():
+        if prop not in names:
+            viol.append({"kind": "impl-vs-oracle", "case": "\\p{%s}" % prop, "what": "property of strings %s is not known to the crate" % prop})
+            continue
+        t = set(tuple(x) for x in tabs[disp[names[prop]]])
+        for c, v in zip(e["candidates"], e["verdicts"]):
+            n += 1
+            sq = tuple(int(x, 16) for x in c.split())
+            if (sq in t) != (v == "1") and len(viol) < 40:
+                viol.append({"kind": "impl-vs-oracle", "case": "\\p{%s} sequence %s" % (prop, c),
+                             "what": "the crate's table for \\p{%s} %s the sequence <%s>, ICU 78.2 (Unicode 17) %s" % (
+                                 prop, "contains" if sq in t else "lacks", c, "contains it" if v == "1" else "does not")})
+    for prop in names:
+        if prop not in so["properties"]:
+            viol.append({"kind": "impl-vs-oracle", "case": "\\p{%s}" % prop, "what": "the crate accepts a property of strings %s that is not in the ES table" % prop})
+    return viol, n
 
 
 def casefold_aux():
@@ -905,6 +942,10 @@ def check(pid, tier, seed):
                     stats["dist"]["other-property-violations:" + tag] = stats["dist"].get("other-property-violations:" + tag, 0) + 1
             if oracle is not None:
                 hv += c11_oracle_compare(outdir, oracle)
+                sv, sn = c11_strings_compare()
+                hv += sv
+                stats["dist"]["string-property-candidates-vs-icu"] = sn
+                stats["evaluations"] = stats.get("evaluations", 0) + sn
             for v in hv:
                 violations.append(v)
             if ok_build:
